@@ -209,6 +209,15 @@ impl HttpRequest for SimHttp {
                 };
             }
             gate.await;
+            {
+                let mut g = lock(&w);
+                if let Some(p) = g.script.http_wall_steps.iter().position(|x| x.0 == idx) {
+                    let d = g.script.http_wall_steps.remove(p).1;
+                    g.wall_ns += d;
+                    let (wall, mono) = (g.wall_ns, g.mono_ns);
+                    g.push(Ev::Clock { wall, mono });
+                }
+            }
             lock(&w).push(Ev::HttpResp { idx, delivered: delivered.clone() });
             match delivered {
                 Delivered::Transport => Err(mock_errors::make_transport_error()),
